@@ -294,15 +294,14 @@ def external (mode : String) : Bool := externalModes.contains mode
 
 /-- `fopen(name, mode)` for writing in the current directory -/
 def openW (st : St) (name : Name) (mode : String) : St × Bool :=
-  let loc : Loc := ⟨st.inOut, name⟩
-  match writeEntry (st.fs loc) with
-  | some e => ({ st with fs := st.fs.set loc (some e), events := st.events ++ [.openWrite st.inOut name mode true] }, true)
+  match writeEntry (st.fs ⟨st.inOut, name⟩) with
+  | some e => ({ st with fs := st.fs.set ⟨st.inOut, name⟩ (some e),
+                         events := st.events ++ [.openWrite st.inOut name mode true] }, true)
   | none => (st.emit (.openWrite st.inOut name mode false), false)
 
 def removeN (st : St) (name : Name) : St :=
-  let loc : Loc := ⟨st.inOut, name⟩
-  match removeEntry (st.fs loc) with
-  | some e => { st with fs := st.fs.set loc e, events := st.events ++ [.remove st.inOut name true] }
+  match removeEntry (st.fs ⟨st.inOut, name⟩) with
+  | some e => { st with fs := st.fs.set ⟨st.inOut, name⟩ e, events := st.events ++ [.remove st.inOut name true] }
   | none => st.emit (.remove st.inOut name false)
 
 /-- the match loop of `cleanImplementationFiles` over the names `glob` returned -/
